@@ -951,7 +951,13 @@ pub fn run_op(ctx: &mut Ctx, op_line: &str) {
             }
             (_, Ref::Ok(p)) => {
                 if cl != line("OK", p) {
-                    verdict = Some(("ffi-differs", format!("C: {}  Rust: Ok {:?}", cl, p)));
+                    // a zero `max_imbalance` is where coupe.h ("negative" = absent) and
+                    // ffi/src/lib.rs (`<= 0.0` = absent) part: own signature
+                    let sig = match &op {
+                        Op::Fm { imb, .. } if *imb == 0.0 => "ffi-fm-zero-imbalance",
+                        _ => "ffi-differs",
+                    };
+                    verdict = Some((sig, format!("C: {}  Rust: Ok {:?}", cl, p)));
                 }
             }
             (Op::Fm { adj, .. }, Ref::OkTies(p)) => {
